@@ -56,10 +56,19 @@ type pktIn struct {
 	Body     string `json:"body"` // hex; for command types: ignored when Cmd != nil
 	Cmd      *packet.CommandPacket `json:"cmd,omitempty"`
 	Rate     int64  `json:"rate"` // rateLimitBytesPerSecond handed to WritePacket (0 = unlimited)
+	Fill     []int  `json:"fill,omitempty"` // [byte, n]: body = n copies of byte (large bodies without shipping them as hex)
+}
+
+func pktBody(p pktIn) []byte {
+	if len(p.Fill) == 2 {
+		return bytes.Repeat([]byte{byte(p.Fill[0])}, p.Fill[1])
+	}
+	return unhx(p.Body)
 }
 type caseIn struct {
 	Mode string  `json:"mode"` // "pk" | "raw" | "ws" (pk over a WebSocket adapter; Cuts = message lengths) | "cw" (two concurrent writers)
 	Park int     `json:"park"` // cw: writer A is parked before its Park-th transport Write call
+	PSide string `json:"pside"` // dx: which direction is parked ("w" | "r")
 	Side string  `json:"side"` // ws: server | client | transport
 	Pkts []pktIn `json:"pkts"`
 	Wire string  `json:"wire"`
@@ -83,6 +92,7 @@ type caseOut struct {
 	PropOK  bool        `json:"prop_ok"`
 	PropMsg string      `json:"prop_msg"`
 	WireLen int         `json:"wire_len"`
+	In      *dxIn       `json:"in,omitempty"` // dx: the incoming direction
 }
 
 func isJSONType(t byte) bool { return packet.Type(t).IsJsonCommand() || packet.Type(t).IsCommandResp() }
@@ -199,7 +209,7 @@ func runCase(raw json.RawMessage) interface{} {
 		var wants []want
 		for _, p := range c.Pkts {
 			tp := &packet.TransferPacket{PacketType: packet.Type(p.Ty)}
-			body := unhx(p.Body)
+			body := pktBody(p)
 			if p.Cmd != nil {
 				tp.CommandPacket = p.Cmd
 				body, _ = json.Marshal(p.Cmd)
@@ -282,6 +292,8 @@ func runCase(raw json.RawMessage) interface{} {
 		}
 	case "cw":
 		return runCW(c)
+	case "dx":
+		return runDX(c)
 	case "raw":
 		wire = unhx(c.Wire)
 		obsv, _ := readAll(wire, c.Cuts, c.Big)
